@@ -84,6 +84,19 @@ def sweeps_for_crop(name, dense=False, rnd=None):
     decline = [float(cc_development(c.CC0, c.CCx, cgc, cdc, t, "Decline", c.CCx)) for t in ts]
     out.append({"f": "cc_development.growth", "crop": name, "kind": "mono", "dir": "nondec", "lo": to_num(0), "hi": to_num(c.CCx), "pts": pts(ts, growth), "x": {}, "bounds": [{"at": to_num(0.0), "value": to_num(c.CC0)}]})
     out.append({"f": "cc_development.decline", "crop": name, "kind": "mono", "dir": "noninc", "lo": to_num(0), "hi": to_num(c.CCx), "pts": pts(ts, decline), "x": {}, "bounds": [{"at": to_num(0.0), "value": to_num(c.CCx)}]})
+    # growth curve as the model evaluates it under leaf-expansion stress: adjusted CCx below the crop's CCx (= CCx0)
+    for f in ([0.3, 0.5, 0.6, 0.75, 0.9, 0.98] if dense else [0.6, rnd.choice([0.3, 0.5, 0.75, 0.9])]):
+        ccxa = f * float(c.CCx)
+        g = [float(cc_development(c.CC0, ccxa, cgc, cdc, t, "Growth", c.CCx)) for t in ts]
+        out.append({"f": "cc_development.growth.adjCCx", "crop": name, "kind": "mono", "dir": "nondec", "lo": to_num(0), "hi": to_num(ccxa),
+                    "pts": pts(ts, g), "x": {"CCx": to_num(ccxa), "CCx0": to_num(c.CCx)}, "bounds": []})
+        cs2 = frange(float(c.CC0), 0.98 * ccxa, 40 if dense else 24)
+        back2 = []
+        for cv in cs2:
+            t = cc_required_time(cv, c.CC0, ccxa, cgc, cdc, "CGC")
+            back2.append(float(cc_development(c.CC0, ccxa, cgc, cdc, t, "Growth", c.CCx)))
+        out.append({"f": "cc_required_time.inverse.adjCCx", "crop": name, "kind": "inverse", "dir": "nondec", "lo": to_num(0), "hi": to_num(ccxa),
+                    "pts": pts(cs2, back2), "x": {"CCx": to_num(ccxa), "CCx0": to_num(c.CCx)}, "bounds": []})
     # a few perturbed canopy parameter sets (C17 quantifies over canopy parameters)
     for j in range(4 if dense else 1):
         ccx = rnd.uniform(0.3, 0.99)
